@@ -95,6 +95,8 @@ func privateValue(enc string) (any, bool) {
 		return []any{}, true
 	case "dict":
 		return vh.Dict{"a": 1}, true
+	case "edict":
+		return vh.Dict{}, true
 	case "ibig":
 		return vh.Raw("i99999999999999999999999e"), true
 	}
